@@ -246,8 +246,21 @@ def secondary_start(prop, tier, base_seed, n, budget, workers):
     env = dict(os.environ, VERIF_TZ=TZS[(base_seed + 1) % len(TZS)], VERIF_OPTIMIZE='1', VERIF_SECONDARY='1')
     p = subprocess.Popen([sys.executable, os.path.join(VERIF_DIR, 'check'), prop, '--tier', tier, '--seed', str(base_seed),
                           '--n', str(n2), '--budget', str(b2), '--workers', str(max(2, workers // 4)), '--no-evidence'],
-                         cwd=VERIF_DIR, stdout=subprocess.PIPE, stderr=subprocess.STDOUT, text=True, env=env)
+                         cwd=VERIF_DIR, stdout=subprocess.PIPE, stderr=subprocess.STDOUT, text=True, env=env,
+                         start_new_session=True)      # its own process group: it and its workers are killed together
     return p, env['VERIF_TZ']
+
+
+def secondary_kill(p):
+    import signal
+    try:
+        os.killpg(p.pid, signal.SIGKILL)
+    except (ProcessLookupError, PermissionError):
+        pass
+    try:
+        p.communicate(timeout=10)
+    except subprocess.TimeoutExpired:
+        pass
 
 
 def secondary_finish(p, prop, tier):
@@ -405,8 +418,7 @@ def main(argv=None):
         harness_error = 'worker died or timed out: %r' % (exc,)
     if harness_error:
         if sec is not None:
-            sec[0].kill()
-            sec[0].communicate()
+            secondary_kill(sec[0])
         print('HARNESS-ERROR property=%s' % prop)
         print(harness_error)
         return 2
@@ -544,8 +556,7 @@ def main(argv=None):
             minim['original_size'], minim['minimised_size'], execs))
     secondary = None
     if sec is not None and viol is not None:
-        sec[0].kill()
-        sec[0].communicate()
+        secondary_kill(sec[0])
     if viol is None and sec is not None:
         tz2 = sec[1]
         rc2, n2, out2 = secondary_finish(sec[0], prop, tier)
